@@ -22,7 +22,7 @@ def model_check(ctx):
     import re
     never = []
     for act in ("Pick01", "Pick02", "Before", "Initial", "FilterBefore", "Upstream", "FilterAfter", "Log",
-                "Boot", "Ask", "Repeat", "Reconfigure", "ReconfigureFails", "ProtAPI", "PauseExpires", "WriteBack",
+                "Boot", "Ask", "Repeat", "Reconfigure", "ReconfigureFails", "EditClients", "ProtAPI", "PauseExpires", "WriteBack",
                 "Finish"):
         # TLC prints interim coverage every minute: the LAST report is the final one
         ms = re.findall(r"<%s line \d+, col \d+ to line \d+, col \d+ of module DnsPipeline>: (\d+):(\d+)" % act, out)
